@@ -270,6 +270,16 @@ def plan(ctx):
         c = dc.short_life_case(ctx.rng, mats[i % len(mats)], ("last", "lump")[(i // len(mats)) % 2])
         c["tag"] = "short-life"
         cases.append(c)
+    for i in range(len(mats) if ctx.quick() else 4 * len(mats)):
+        c = dc.tail_case(ctx.rng, mats[i % len(mats)], ("lump", "last")[i % 2])
+        c["tag"] = "tail-after-last-boundary"
+        cases.append(c)
+    # an interaction diagram with the knee off the diagonal (all shipped knees are symmetric): fatigue and creep axes
+    # are not interchangeable
+    for i in range(4 if ctx.quick() else 24):
+        c = dc.gen_case(ctx.rng, regime="crossing", material=mats[i % len(mats)] + "@knee", mode=("lump", "last")[i % 2])
+        c["tag"] = "asymmetric-knee"
+        cases.append(c)
     for i in range(len(mats) if ctx.quick() else 6 * len(mats)):
         c = dc.bracket_case(ctx.rng, mats[i % len(mats)])
         c["tag"] = "day-brackets"
